@@ -118,7 +118,11 @@ void harness(void)
 	VERIF_COVER(ret == 0 && g_proc.fblk_in_flight != NULL);
 	VERIF_COVER(ret == 0 && g_proc.fblk_in_flight == NULL);
 	VERIF_COVER(ret != 0 && g_proc.free_list == cur);
-	VERIF_COVER(ret != 0 && g_proc.free_list != cur);
+	/* since fix 1bda2ca a refused block is always back on the free list (it
+	 * used to be lost when the read-back copy could not be allocated:
+	 * C13.bp.no_orphan, harness w17_own) */
+	VERIF_ASSERT(ret == 0 || g_proc.free_list == cur,
+		     "C13.enqueue_block.refused_block_kept");
 #else
 	g_proc.begin_called = verif_nd_bool("begin_called");
 	g_proc.blk_flags = verif_nd_u32("blk_flags");
